@@ -827,25 +827,50 @@ def gen_insert_book(rng, p_missing):
         r = rng.random()
         if r < 0.25:
             return T(rng.choice(["LIT", "w", "Ann"]))
+        if r < 0.7 and c:
+            x = rng.choice(list(c)) if rng.random() >= p_missing else rng.choice(MISSING + ["b1", "c1"])
+            return ("tmpl", ([("text", "a")] if rng.random() < 0.3 else []) + [("out", ("var", x))])
         if r < 0.9:
             return ("tmpl", [("out", gen_expr(rng, c, 1, p_missing))])
         return ("tmpl", [("text", "a"), ("out", gen_expr(rng, c, 0, p_missing))])
 
     def inc_cell(c):
         r = rng.random()
-        if r < 0.6:
+        if r < 0.7:
             return T("")
-        if r < 0.75:
+        if r < 0.85:
             return T(rng.choice(["TRUE", "FALSE", "false", " false "]))
-        if r < 0.9:
+        if r < 0.93:
             return ("tmpl", [("out", gen_expr(rng, c, 1, p_missing))])
         return ("native", gen_expr(rng, c, 1, p_missing))
+
+    def simple_rows(c):
+        """rows that usually compile: literal text, a reference (defined unless p_missing says otherwise), a loop over a literal list"""
+        def ref():
+            names = list(c)
+            if names and rng.random() >= p_missing:
+                return ("var", rng.choice(names))
+            return ("var", rng.choice(MISSING + ["name", "b1", "c1", "x"]))
+        rows = []
+        for _ in range(rng.choice([1, 2])):
+            k = rng.random()
+            if k < 0.3:
+                rows.append(dict(kind="plain", inc=T(""), main=T(rng.choice(["hello", "plain text", "a|b"]))))
+            elif k < 0.8:
+                rows.append(dict(kind="plain", inc=T(rng.choice(["", "", "TRUE", "FALSE"])), main=("tmpl", [("text", "m:"), ("out", ref())])))
+            else:
+                rows += [dict(kind="for", var="x", inc=T(""), main=T(rng.choice(["a;b", "p;q;r"]))),
+                         dict(kind="plain", inc=T(""), main=("tmpl", [("text", "it "), ("out", ("var", "x")), ("text", " "), ("out", ref())])),
+                         dict(kind="endfor", inc=T(""), main=T(""))]
+        return rows
 
     def sheet(c, label, children):
         segs = [("rows", [dict(kind="plain", inc=T(""), main=T("S " + label))])]
         for _ in range(rng.choice([1, 2, 3])):
             if children and rng.random() < 0.5:
                 segs.append(("insert", inc_cell(c), rng.choice(children), arg_cell(c)))
+            elif rng.random() < 0.75:
+                segs.append(("rows", simple_rows(c)))
             else:
                 segs.append(("rows", gen_sheet(rng, c, p_missing)))
         if children and not any(sg[0] == "insert" for sg in segs):
